@@ -72,18 +72,18 @@ Step ==
           THEN /\ odd' = odd \cup {l}
                /\ S' = Resync(r.obs)
                /\ UNCHANGED <<bad, asis>>
-          ELSE LET cands == IF act.a = "restart"
-                            THEN {[st |-> rst, asis |-> rst, rew |-> {}, failed |-> {}]}
-                            ELSE Results(cfg, S, act, r.script)
-                   rewOk(c) == act.a = "restart" \/ c.rew = SetOf(r.rew)
-                   good == {c \in cands : ProjEq(c.st, r.obs) /\ rewOk(c)}
-                   ai   == {c \in cands : ProjEq(c.asis, r.obs) /\ rewOk(c)}
-               IN /\ odd' = odd
+          ELSE \E cands \in {IF act.a = "restart"
+                              THEN {[st |-> rst, asis |-> rst, rew |-> {}, failed |-> {}]}
+                              ELSE Results(cfg, S, act, r.script)} :
+               LET rewOk(c) == act.a = "restart" \/ c.rew = SetOf(r.rew) IN
+               \E good \in {{c \in cands : ProjEq(c.st, r.obs) /\ rewOk(c)}} :
+                  /\ odd' = odd
                   /\ IF good # {}
                      THEN S' = (CHOOSE c \in good : TRUE).st /\ UNCHANGED <<bad, asis>>
-                     ELSE IF ai # {}
-                     THEN S' = (CHOOSE c \in ai : TRUE).asis /\ asis' = asis \cup {l} /\ UNCHANGED bad
-                     ELSE S' = Resync(r.obs) /\ bad' = bad \cup {l} /\ UNCHANGED asis
+                     ELSE \E ai \in {{c \in cands : ProjEq(c.asis, r.obs) /\ rewOk(c)}} :
+                          IF ai # {}
+                          THEN S' = (CHOOSE c \in ai : TRUE).asis /\ asis' = asis \cup {l} /\ UNCHANGED bad
+                          ELSE S' = Resync(r.obs) /\ bad' = bad \cup {l} /\ UNCHANGED asis
 
 Next == /\ l <= Len(Trace)
         /\ (Boot \/ Step)
